@@ -18,6 +18,8 @@ CLAIMED = {
                 note="Rely/guarantee over the observer RLock (E7); FIFO/no-loss of the queue is C16 + E6 and is not re-proved here; liveness not decided.", ref="4/C04"),
     "C05": dict(text="Every callback is made in a lock hold in which membership was just established; unschedule/remove_handler_for_watch/unschedule_all/_remove_emitter/_clear_emitters postconditions (handler gone, emitter stopped and joined) are proved under the same lock; on_thread_stop reaches unschedule_all.",
                 note="Same trusted base as C04; that join() returns is liveness (C06).", ref="4/C05"),
+    "C17": dict(text="Rely/guarantee over DelayedQueue._lock with a ghost put-history: every section of put/get/remove/close preserves the lock invariant (proved at each release and wait entry) and stays within the rely; get() hands out the oldest remaining element exactly once, a delayed one never before insert time + delay, a head removed meanwhile is not returned, None only after close(); remove() hands out the first match exactly once; signalling discipline of close()/put().",
+                note="E7 (Lock, Condition.wait atomic release/re-acquire), time.time non-decreasing (reals), atomic attribute store, distinct elements. 'A blocked get() returns after close()' is liveness: only the signalling discipline is proved.", ref="4/C17"),
 }
 
 NOT_APPLICABLE = {
